@@ -87,8 +87,10 @@ Section Machine.
               | O => (g, ONone, held)                 (* no lock object was created: nothing to drop *)
               | S h =>
                   match g_log g with
-                  | Some (es, S n) => (mkG (Some (es, n)) false (g_cells g), ONone, h)
-                  | Some (es, O) => (mkG (Some (es, O)) true (g_cells g), OPanic, h)   (* `suppress_count -= 1` underflows under the lock *)
+                  (* `suppress_count = suppress_count.saturating_sub(1)` (repair 2f50a3c): when the log was restarted
+                     by another thread since this lock was taken the count is already 0 and stays 0; before the
+                     repair `suppress_count -= 1` underflowed under the write lock and poisoned it (F10j) *)
+                  | Some (es, n) => (mkG (Some (es, Nat.pred n)) false (g_cells g), ONone, h)
                   | None => (g, ONone, h)
                   end
               end
